@@ -147,6 +147,28 @@ func cmdVF(args []string) int {
 			t0 := time.Now()
 			rep := verifyFunc(P, fn, fc)
 			gen := time.Since(t0)
+			if os.Getenv("GVC_STATS") != "" {
+				tot, mx := 0, 0
+				for _, o := range rep.Obls {
+					n := len(o.Goal)
+					for _, a := range o.Assumes {
+						n += len(a)
+					}
+					tot += n
+					if n > mx {
+						mx = n
+					}
+				}
+				fmt.Printf("   stats: %d obligations, %d paths, total assumption bytes %d, max %d, decls %d\n", len(rep.Obls), rep.Paths, tot, mx, len(rep.fx.decls))
+				for i, o := range rep.Obls {
+					if i%20000 == 0 {
+						fmt.Println("     ", o.Name, o.Path)
+					}
+				}
+				if os.Getenv("GVC_STATS") == "only" {
+					continue
+				}
+			}
 			solveReport(rep, solveOpts{timeout: *timeout, models: true})
 			fmt.Printf("== %s: %d obligations, %d paths, gen %.2fs, total %.2fs\n", rep.Short, len(rep.Obls), rep.Paths, gen.Seconds(), time.Since(t0).Seconds())
 			if rep.Error != "" {
